@@ -244,6 +244,13 @@ class OdeModel:
                 extra.append(calg.unparse(fac))
         if extra:
             s.problems.append(("viol", "factors", f"unexpected factor(s) {extra} in term {lw.text!r}"))
+        # a factor that is an element of another (pre-computed) list or an accumulated value is text built elsewhere: the term cannot
+        # be reconstructed here -- that is "cannot analyse", not a wrong term
+        opaque = [h for h in factors if kind in ("reaction", "heat", "cool") and
+                  any(isinstance(x, tuple) and x and x[0] in ("elem", "acc", "carried", "item", "after") for x in walk(h[1] if h[0] == "fmt" else h))]
+        if opaque:
+            s.problems.append(("unrec", "product", f"the term is pasted from a value built elsewhere ({show(opaque[0])[:80]}): not reconstructible"))
+            return s
         if len(seqs) != 1:
             s.problems.append(("viol", "factors", f"term has {len(seqs)} abundance products, expected exactly one: {lw.text!r}"))
         # coefficient
